@@ -241,11 +241,12 @@ DAG_ASSUME = ["the recorder sources (src/profiler/*.c, dag_recorder_inl.h) are c
               "bounded: programs of <= 3 (quick) / 4 (thorough) tasks, <= 3 sections, nesting <= 2; interval lengths from patterns over {1,3,10}; option settings as listed"]
 prop("C18", lambda tier: [binc("c18", "DAG_COMPONENTS=c18 engine/build_dag.sh", "build/c18/c18 --tier quick --stats {stats}", "build/c18/c18 --tier thorough --stats {stats}", DAG_ENGINE, deadline=(600, 3000))],
      "all well-nested programs (task ::= section* end; section ::= (section|create)* wait; 'other' intervals) of the bound x timing patterns x explicit/implicit section opening x W workers x all steal/migration schedules "
-     "(<= 2) x contraction settings (12 path-selecting settings quick, the whole 90-setting grid thorough); root summary and parsed .stat totals vs an oracle computed from the interval list, and across the option grid",
+     "(<= 2) x contraction settings (12 path-selecting settings quick, the whole 90-setting grid thorough); root summary and parsed .stat totals vs an oracle computed from the interval list, and across the option grid; "
+     "distinct = cases whose recorded DAG differs byte-wise from that of every earlier option setting of the same execution",
      assumptions=DAG_ASSUME)
 prop("C19", lambda tier: [binc("c19", "DAG_COMPONENTS=c19 engine/build_dag.sh", "build/c19/c19 --tier quick --stats {stats}", "build/c19/c19 --tier thorough --stats {stats}", DAG_ENGINE, deadline=(900, 4000))],
      "the executions of C18 x record-time settings, each dumped, read back (raw bytes, dr_read_dag, string table with 1-4 file names), validated structurally by an independent validator, replayed chronologically, "
-     "and converted with 18 conversion-time settings; converted DAGs validated and their totals compared with the input's",
+     "and converted with 18 conversion-time settings; converted DAGs validated and their totals compared with the input's; distinct = byte-wise distinct recorded DAGs per execution",
      assumptions=DAG_ASSUME)
 
 prop("C17", lambda tier: [e1("c17", "harness/c17_bulk.c"), e1("c17m", "harness/c17_mtbb.cc", harness_flags="-I" + REPO + "/src -fpermissive")],
